@@ -154,9 +154,10 @@ func allLeaves() []*leaf {
 			model: func(w *W, b *mblob) tri { return tb(strings.HasPrefix(b.ref.String(), partial(w))) }},
 		{name: "size", family: "S",
 			build: func(w *W) *search.Constraint {
-				return &search.Constraint{BlobSize: &search.IntConstraint{Min: 50, Max: 400}}
+				// inclusive bounds that are the exact sizes of two blobs of the world
+				return &search.Constraint{BlobSize: &search.IntConstraint{Min: int64(w.byName["c2"].size), Max: int64(w.byName["f1"].size)}}
 			},
-			model: func(w *W, b *mblob) tri { return tb(b.size >= 50 && b.size <= 400) }},
+			model: func(w *W, b *mblob) tri { return tb(b.size >= w.byName["c2"].size && b.size <= w.byName["f1"].size) }},
 
 		{name: "pnAny", family: "P",
 			build: func(w *W) *search.Constraint { return pnC(search.PermanodeConstraint{}) },
@@ -226,11 +227,11 @@ func allLeaves() []*leaf {
 				return pnC(search.PermanodeConstraint{Attr: "tag", Value: "foo", At: world.T(30)})
 			},
 			model: pnModel(func(w *W, b *mblob) tri { return tb(has(b.attrsAt(world.T(30))["tag"], "foo")) })},
-		{name: "modAfter41", family: "P",
+		{name: "modAfter42", family: "P", // p4's newest claim is exactly T(42): "after" is documented as >=
 			build: func(w *W) *search.Constraint {
-				return pnC(search.PermanodeConstraint{ModTime: &search.TimeConstraint{After: types.Time3339(world.T(41))}})
+				return pnC(search.PermanodeConstraint{ModTime: &search.TimeConstraint{After: types.Time3339(world.T(42))}})
 			},
-			model: pnModel(func(w *W, b *mblob) tri { return tb(!b.modTime().Before(world.T(41))) })},
+			model: pnModel(func(w *W, b *mblob) tri { return tb(!b.modTime().Before(world.T(42))) })},
 		{name: "timeAfter0", family: "P", corpusOnly: true, // "TODO: not yet supported" panic without a corpus
 			build: func(w *W) *search.Constraint {
 				return pnC(search.PermanodeConstraint{Time: &search.TimeConstraint{After: types.Time3339(world.T(0))}})
@@ -288,7 +289,7 @@ func allLeaves() []*leaf {
 				return &search.Constraint{File: &search.FileConstraint{FileName: &search.StringConstraint{Equals: "alpha.txt"}}}
 			},
 			model: fileModel(func(w *W, b *mblob) bool { return b.fileName == "alpha.txt" })},
-		{name: "fSize50", family: "F",
+		{name: "fSizeMin", family: "F",
 			build: func(w *W) *search.Constraint {
 				return &search.Constraint{File: &search.FileConstraint{FileSize: &search.IntConstraint{Min: 50}}}
 			},
@@ -415,6 +416,32 @@ func (t *tree) depth() int {
 		d = t.b.depth()
 	}
 	return d + 1
+}
+
+func (t *tree) hasOp(op string) bool {
+	if t.op == "" {
+		return false
+	}
+	return t.op == op || t.a.hasOp(op) || (t.b != nil && t.b.hasOp(op))
+}
+
+// leafGroup is "dir-children" when the tree has a directory constraint that
+// looks at the directory's children (count / contains / recursiveContains), else "-".
+func (t *tree) leafGroup() string {
+	if t.op == "" {
+		switch t.leaf.name {
+		case "dCount2", "dContainsAlpha", "dContainsBeta", "dRecAlpha":
+			return "dir-children"
+		}
+		return "-"
+	}
+	if g := t.a.leafGroup(); g != "-" {
+		return g
+	}
+	if t.b != nil {
+		return t.b.leafGroup()
+	}
+	return "-"
 }
 
 func (t *tree) corpusOnly() bool {
